@@ -5,6 +5,7 @@ import Proofs.ResolverRun
 import Proofs.ResolverNx
 import Proofs.ResolverTrace
 import Proofs.ResolverClass
+import Proofs.ResolverCache
 /-!
 # C16 — stub resolution reaches the documented outcome under every fault sequence
 
@@ -229,6 +230,15 @@ theorem ends_within_lifetime_partial (env : Env) (cache : Cache) (script : List 
     ⟨by simp [initSt], by simp [initSt], by simp [initSt]⟩
   exact h
 
+/-- with the back-off sleep clipped to the remaining lifetime (the proposed repair) the resolution ends inside its
+lifetime, for every script. -/
+theorem ends_within_lifetime_intended (env : Env) (cache : Cache) (script : List ScriptStep)
+    (hcap : env.bo.init ≤ env.bo.cap) (hclip : env.clipSleep = true) :
+    (loopResult env cache script).2.1 = .outOfFuel ∨
+    (loopResult env cache script).2.2.now ≤ env.start + env.lifetime := by
+  have h := ends_within_lifetime_partial env cache script hcap
+  simpa [hclip] using h
+
 /-- The full statement "the resolution ends no later than `start + lifetime`" is FALSE for the code as shipped: two
 silent nameservers, timeout 0.25 s, lifetime 0.5 s — `LifetimeTimeout` is raised at 0.6 s, after a 0.1 s back-off
 sleep that began exactly when the lifetime ran out (KNOWN_FINDINGS: C16/resolve/lifetime-overrun/backoff-sleep). -/
@@ -363,6 +373,54 @@ theorem cache_touch_exact (env : Env) (st : St) (ns : Server) (out : Outcome) :
         ∀ t, cacheGet st'.cache (mkKey st.qname env.rdtype env.rdclass) t = if a.expiration ≤ t then none else some a) :=
   ⟨(queryResult_cache env st ns out).1, (queryResult_cache env st ns out).2,
    fun a d st' h => (queryResult_class.1 a d st' h).2.2⟩
+
+/-- the same over a whole resolution: whatever the script, the final cache agrees with the initial one on every key
+that is not `(candidate, type, class)` or `(candidate, ANY, class)` for a candidate name of this resolution. -/
+theorem cache_only_candidate_keys (env : Env) (cache : Cache) (script : List ScriptStep) :
+    (loopResult env cache script).2.1 = .outOfFuel ∨
+    ∀ k t, foreignKey env k → cacheGet (loopResult env cache script).2.2.cache k t = cacheGet cache k t := by
+  have h := run_post env (InvK env cache) (fun _ _ st' => CacheAgree env cache st'.cache)
+    (fun st evs st' hi hs => (step_cache env cache st hi).1 evs st' hs)
+    (fun st evs r st' hi hs _ => (step_cache env cache st hi).2 evs r st' hs)
+    (fuelBound env.bo env.cfg.servers.length env.qnamesToTry.length env.lifetime)
+    (initSt env.start cache script env.qnamesToTry) []
+    ⟨by simp [initSt], by simp [initSt], fun _ _ _ => rfl⟩
+  exact h
+
+/-- `_compute_timeout`: a query is only issued while the lifetime has not expired, and its timeout is the smaller of
+what is left of the lifetime and the per-query timeout (so a nameserver that honours it cannot overrun the lifetime). -/
+theorem query_timeout_budget (env : Env) (now t : Nat) (h : computeTimeout env now = some t) :
+    now - env.start < env.lifetime ∧ t = min (env.lifetime - (now - env.start)) env.cfg.timeout ∧
+    (env.start ≤ now → now + t ≤ env.start + env.lifetime) := by
+  unfold computeTimeout at h
+  simp only at h
+  split at h
+  · cases h
+  · cases h
+    refine ⟨by omega, rfl, ?_⟩
+    intro _
+    rw [Nat.min_def]; split <;> omega
+
+/-- `next_nameserver`: "retry_with_tcp, round re-arming, back-off doubling" — the pending TCP retry goes to the same
+server with no back-off; otherwise the next server of the round is taken; when the round is exhausted and servers
+remain, the round is re-armed with all remaining servers, the current back-off is slept and then multiplied (capped);
+with no server left the resolution fails with `NoNameservers`. -/
+theorem next_nameserver_schedule (env : Env) (st : St) :
+    (∀ ns tcp b st1, nextNameserver env st = .ok ns tcp b st1 →
+      st1.nameservers = st.nameservers ∧ st1.retryWithTcp = false ∧ st1.tcpAttempt = tcp ∧ st1.nameserver = some ns ∧
+      ((st.retryWithTcp = true ∧ st.nameserver = some ns ∧ tcp = true ∧ b = 0 ∧ st1.current = st.current ∧
+          st1.backoff = st.backoff) ∨
+       (st.retryWithTcp = false ∧ st.current = ns :: st1.current ∧ b = 0 ∧ st1.backoff = st.backoff ∧
+          tcp = (env.tcp || ns.alwaysMax)) ∨
+       (st.retryWithTcp = false ∧ st.current = [] ∧ st.nameservers = ns :: st1.current ∧ b = st.backoff ∧
+          st1.backoff = min (st.backoff * env.bo.factor) env.bo.cap ∧ tcp = (env.tcp || ns.alwaysMax)))) ∧
+    (st.retryWithTcp = false → st.current = [] → st.nameservers = [] → nextNameserver env st = .raise .noNameservers) := by
+  refine ⟨?_, ?_⟩
+  · intro ns tcp b st1 h
+    obtain ⟨⟨_, _, _, _, g5, _⟩, r1, r2, r3, hc⟩ := nextNameserver_ok h
+    exact ⟨g5, r1, r2, r3, hc⟩
+  · intro h1 h2 h3
+    simp [nextNameserver, h1, h2, h3]
 
 /-! ## non-vacuity of the run-level theorems -/
 
